@@ -53,6 +53,12 @@ CONTRACTS = {
         'params': {'u': 'int'}, 'raises': {'ValueError': 'not (1 <= u and u <= self.lorder)'}, 'returns': 'iseq',
         'ensures': ['result == rnbrs(self.gid, u)', STRICT,
                     'forall(lambda i: implies(0 <= i and i < ilen(result), 1 <= iget(result, i) and iget(result, i) <= self.rorder))']},
+    (G, 'BipV.left_neighbors'): {
+        'assumed': 'neighbour view (C16): refused iff v is not a right vertex; every listed w is a left vertex that has v among its right neighbours',
+        'params': {'v': 'int'}, 'raises': {'ValueError': 'not (1 <= v and v <= self.rorder)'}, 'returns': 'iseq',
+        'ensures': ['result == lnbrs(self.gid, v)',
+                    'forall(lambda i: implies(0 <= i and i < ilen(result), 1 <= iget(result, i) and iget(result, i) <= self.lorder and '
+                    'exists(lambda k: 0 <= k and k < ilen(rnbrs(self.gid, iget(result, i))) and iget(rnbrs(self.gid, iget(result, i)), k) == v)))']},
     (G, 'BipV.right_degree'): {
         'assumed': 'degree view (C16): len(right_neighbors(u))',
         'params': {'u': 'int'}, 'raises': {'ValueError': 'not (1 <= u and u <= self.lorder)'}, 'returns': 'int',
@@ -109,6 +115,7 @@ CONTRACTS = {
     (V, 'BipEdgeVars.__call__'): {
         'property': ['C11'],
         'source': (V, 'BaseVariableGroup.__call__'),
+        # as a callee (and variant `point`): the call e(u, v) with both components given
         'params': {'index': 'tuple:int,int'}, 'returns': 'int',
         'supports': ['len(index) == 2', 'index[0] is not None and index[1] is not None'],
         'requires': ['1 <= index[0]', 'index[0] <= self.G.lorder'],
@@ -116,6 +123,29 @@ CONTRACTS = {
         'ensures': ['0 <= result - self.offset[index[0]]', 'result - self.offset[index[0]] < ilen({})'.format(NB.format('index[0]')),
                     'iget({}, result - self.offset[index[0]]) == index[1]'.format(NB.format('index[0]')),
                     'self.ids_lo <= result', 'result < self.ids_hi'],
+        'inline': ['BipEdgeVars.indices'],
+        'variants': {
+            'point': {},
+            # the projection e(u, None): refused iff u is not a left vertex; otherwise the identifiers of ALL edges at u, in neighbour
+            # order - the contiguous block offset[u], offset[u]+1, ... (what the generator yields when consumed)
+            'row': {'params': {'index': 'tuple:int,none'}, 'returns': 'iseq', 'requires!': [],
+                    'supports': ['len(index) == 2'],
+                    'raises': {'ValueError': 'not (1 <= index[0] and index[0] <= self.G.lorder)'},
+                    'ensures!': ['ilen(result) == ilen({})'.format(NB.format('index[0]')),
+                                'forall(lambda t: implies(0 <= t and t < ilen(result), iget(result, t) == self.offset[index[0]] + t))',
+                                'forall(lambda t: implies(0 <= t and t < ilen(result), self.ids_lo <= iget(result, t) and iget(result, t) < self.ids_hi))']},
+            # the projection e(None, v): refused iff v is not a right vertex; otherwise, for every left neighbour w of v in list order,
+            # the identifier of the edge (w, v)
+            'col': {'params': {'index': 'tuple:none,int'}, 'returns': 'iseq', 'requires!': [],
+                    'supports': ['len(index) == 2'],
+                    'raises': {'ValueError': 'not (1 <= index[1] and index[1] <= self.G.rorder)'},
+                    'ensures!': ['ilen(result) == ilen(lnbrs(self.G.gid, index[1]))',
+                                 'forall(lambda t: implies(0 <= t and t < ilen(result), '
+                                 '0 <= iget(result, t) - self.offset[iget(lnbrs(self.G.gid, index[1]), t)] and '
+                                 'iget(result, t) - self.offset[iget(lnbrs(self.G.gid, index[1]), t)] < ilen(rnbrs(self.G.gid, iget(lnbrs(self.G.gid, index[1]), t))) and '
+                                 'iget(rnbrs(self.G.gid, iget(lnbrs(self.G.gid, index[1]), t)), iget(result, t) - self.offset[iget(lnbrs(self.G.gid, index[1]), t)]) == index[1]))',
+                                 'forall(lambda t: implies(0 <= t and t < ilen(result), self.ids_lo <= iget(result, t) and iget(result, t) < self.ids_hi))']},
+        },
     },
     (V, 'BipEdgeVars.to_index'): {
         'property': ['C11'],
